@@ -52,6 +52,9 @@ Next ==
               \/ \E t \in Times : Go(TRUE, tree) /\ Log([a |-> "Chtimes", p |-> p, v |-> t, w |-> "1000000000"])
         /\ UNCHANGED <<tag, held>>
      \/ /\ Neg /\ ~Exists("b") /\ Go(FALSE, tree) /\ Log([a |-> "WriteAt", p |-> "b", off |-> 0, len |-> 1, tag |-> tag, held |-> FALSE]) /\ tag' = tag + 1 /\ UNCHANGED held
+     \* a write handle is asked for on a DIRECTORY: refused, nothing changes (the directory stays a directory)
+     \/ /\ Neg /\ \E p \in Dirs, w \in {"WriteAt", "Append"} : Exists(p) /\ Go(FALSE, tree)
+           /\ Log([a |-> w, p |-> p, off |-> 0, len |-> 1, tag |-> tag, held |-> FALSE]) /\ tag' = tag + 1 /\ UNCHANGED held
 Spec == Init /\ [][Next]_gvars
 Emit == (Len(hist) = D) => PrintT(<<"BEH", ToJson(hist)>>)
 View == <<tree, hist, held>>
